@@ -124,6 +124,53 @@ fn sweep(rep: &Report, per_class: usize, core: bool, seed: u64) {
     });
 }
 
+/// every instruction class with its memory operand aimed at the last bytes of the 1 MiB space (a word operand
+/// at 0xFFFFF has its high byte at physical 0) and at the wrap point: no form may index past the end
+fn edge_sweep(rep: &Report, per_class: usize, core: bool, seed: u64) {
+    par_for(CLASSES, 1, |class| {
+        let mut rng = Rng::new(seed).fork(0xC09E_0000 + class as u64);
+        let mut b = bench_with_labels(0x9E);
+        // labels whose offsets allow every target nibble
+        for (n, o) in EDGE_LABELS {
+            b.add_data_label(n, o);
+        }
+        let mut agg = FailAgg::new();
+        let mut loc = Local::default();
+        let mut aimed = 0u64;
+        for it in 0..per_class {
+            let mut ins = rand_ins(&mut rng, class);
+            // use the extra labels half of the time
+            rename_label(&mut ins, &mut rng);
+            let mut pre = hostile_regs(&mut rng);
+            if let Ins::Str(r, ..) = &ins {
+                if *r != Rep::None {
+                    pre[CX] = rng.below(6) as u16;
+                }
+            }
+            let target = [0xFFFFFu32, 0xFFFFE, 0xFFFFF, 0x00000, 0xFFFFD][it % 5];
+            let labels = b.labels.clone();
+            if !aim_operand(&ins, &mut pre, &labels, target) {
+                continue;
+            }
+            aimed += 1;
+            let line = ins.ir();
+            let mn = mnemonic(&ins);
+            let out = check_ins(&mut b, &ins, &line, &pre, &mut agg, core, "C09 totality at the end of memory", &|c| {
+                if c == "panic" {
+                    Some(format!("total:{}:panic-at-memory-edge:{}", mn, panic_kind(&last_panic()).replace(' ', "_")))
+                } else {
+                    None
+                }
+            });
+            loc.evals += 1;
+            loc.distinct.insert(fnv64(format!("edge|{}|{:05x}|{}", ins.class(), target, out.obs.kind()).as_bytes()));
+        }
+        loc.counters.insert("instructions executed with an operand aimed at the end of memory", aimed);
+        agg.flush(rep);
+        loc.flush(rep);
+    });
+}
+
 /// console-interrupt paths through the real binary with hostile registers and stdin
 fn cli_interrupts(rep: &Report, n: usize, seed: u64) {
     par_for(n, 1, |i| {
@@ -137,13 +184,20 @@ fn cli_interrupts(rep: &Report, n: usize, seed: u64) {
         let seg: u16 = *rng.pick(&[0xFFFFu16, 0xFFFF, 0xF000, 0, 0xFFF0]);
         let off: u16 = *rng.pick(&[0x000Eu16, 0x000F, 0xFFFF, 0xFFFE, 0, 0x0010, 0x00FF, 2, 8, 12, 13, 0x00F8]);
         let cxv: u16 = *rng.pick(&[0u16, 1, 5, 40, 300]);
-        let cap: u8 = *rng.pick(&[0u8, 1, 2, 5, 20, 255, 255]);
+        let cap: u8 = *rng.pick(&[0u8, 1, 2, 3, 4, 5, 6, 7, 20, 255, 255]);
         let stdin: Vec<u8> = match rng.below(6) {
             0 => vec![],
             1 => b"\n".to_vec(),
             2 => b"ab\n".to_vec(),
             3 => b"abcdefghij\n".to_vec(),
-            4 => b"no newline".to_vec(),
+            4 => {
+                if rng.chance(1, 2) {
+                    b"no newline".to_vec()
+                } else {
+                    // multi-byte characters that a small capacity cuts in the middle
+                    "aa\u{e9}z\u{20ac}\u{1F600}bc\n".as_bytes().to_vec()
+                }
+            }
             _ => vec![b'x'; 700],
         };
         let src = format!(
@@ -184,8 +238,10 @@ pub fn run(rep: &Report) {
     sweep(rep, 13 * 8 * 60, true, 0xC09);
     let t = rep.thorough();
     sweep(rep, if t { 13 * 8 * 20_000 } else { 13 * 8 * 400 }, false, rep.seed ^ 0x90);
+    edge_sweep(rep, 600, true, 0xC09E);
+    edge_sweep(rep, if t { 200_000 } else { 3000 }, false, rep.seed ^ 0x9E);
     cli_interrupts(rep, if t { 3000 } else { 120 }, rep.seed);
     rep.floor("instruction executions", rep.evals(), 20_000);
 }
 
-pub const RULE: &str = "random instructions from all 13 classes the assembler can emit (arithmetic, logic, unary incl. mul/div, shifts/rotates with counts 0..255 immediate and CL, mov, xchg, stack, lea, strings with every prefix, jumps/loops, call/ret/int, all 21 single-opcode instructions, print) in every operand form, executed from adversarial states (registers from {0,1,0x7FFF,0x8000,0xFFFE,0xFFFF,random}, segments making seg*16+off straddle 2^20, divisors 0/1/-1, empty and non-empty call stack) in a build with integer-overflow checks; INT 10h/21h services through the real binary with buffers at the top of memory and short/long/closed stdin. Only aborts are judged here (values belong to C01-C07, C18). Distinct = (instruction class with operand shapes, outcome kind) resp. CLI scenario.";
+pub const RULE: &str = "random instructions from all 13 classes the assembler can emit (arithmetic, logic, unary incl. mul/div, shifts/rotates with counts 0..255 immediate and CL, mov, xchg, stack, lea, strings with every prefix, jumps/loops, call/ret/int, all 21 single-opcode instructions, print) in every operand form, executed from adversarial states (registers from {0,1,0x7FFF,0x8000,0xFFFE,0xFFFF,random}, segments making seg*16+off straddle 2^20, divisors 0/1/-1, empty and non-empty call stack) in a build with integer-overflow checks; every class again with its memory / label / string operand aimed at physical 0xFFFFD..0xFFFFF and 0 (operands straddling the end of the 1 MiB space); INT 10h/21h services through the real binary with buffers at the top of memory and short/long/closed stdin. Only aborts are judged here (values belong to C01-C07, C18). Distinct = (instruction class with operand shapes, outcome kind) resp. CLI scenario.";
